@@ -57,6 +57,12 @@ var vBatchStmts = []vBatchStmt{
 	// alias inside a call argument and in a second field
 	{", upper(value) as u, join('-', u, key) as j", "strlen(u) = 1 & u = 'X'", func(k, v []byte) bool { return bytes.Equal(vUpper(v), []byte("X")) },
 		[]func(k, v []byte) (any, bool){vTextCol(func(k, v []byte) []byte { return vUpper(v) }), vTextCol(func(k, v []byte) []byte { return vCat(vCat(vUpper(v), []byte("-")), k) })}, "xy"},
+	// an alias used by a vector function in a second select field: the projection chunk starts
+	// with the same key as a filter chunk whenever the first scanned row is accepted
+	{", upper(value) as u, lower(u) as w", "u != 'Z'", func(k, v []byte) bool { return vNot(bytes.Equal(vUpper(v), []byte("Z"))) },
+		[]func(k, v []byte) (any, bool){vTextCol(func(k, v []byte) []byte { return vUpper(v) }), vTextCol(func(k, v []byte) []byte { return vLower(vUpper(v)) })}, "xyz"},
+	{", int(value) as n, n + 1 as m", "n != 2", func(k, v []byte) bool { return vDecimalValue(v) != 2 },
+		[]func(k, v []byte) (any, bool){vIntCol(func(k, v []byte) int64 { return vDecimalValue(v) }), vIntCol(func(k, v []byte) int64 { return vDecimalValue(v) + 1 })}, "123"},
 }
 
 func VN_BATCH(tier int) int { return len(vBatchStmts) }
